@@ -538,7 +538,6 @@ func (p *player) consumer() {
 				p.byInst[[2]int{ep, p.nInst[ep]}] = e.Channel
 			}
 			inst := p.insts[e.Channel]
-			p.opened[[2]int{ep, inst}] = true
 			p.mu.Unlock()
 			peer := 0
 			if k := p.sc.Endpoints[ep].Kind; k == "tcp_server" || k == "udp_server" {
@@ -568,6 +567,11 @@ func (p *player) consumer() {
 			}
 			p.rec.Put(M{"e": "Ev", "type": "open", "ep": ep, "inst": inst, "dup": dup, "label": e.Channel.String(),
 				"peer": peer, "t": p.ms()})
+			// published to the scenario (wait_open) only now: a step that follows the wait must find the open event
+			// recorded before anything it causes
+			p.mu.Lock()
+			p.opened[[2]int{ep, inst}] = true
+			p.mu.Unlock()
 		case *gomavlib.EventChannelClose:
 			ep, inst := p.chanKey(e.Channel)
 			cause := "nil"
@@ -594,10 +598,10 @@ func (p *player) consumer() {
 					cause = "netclosed"
 				}
 			}
-			p.mu.Lock()
+			p.rec.Put(M{"e": "Ev", "type": "close", "ep": ep, "inst": inst, "cause": cause, "t": p.ms()})
+			p.mu.Lock() // as for open: wait_close returns only once the record is there
 			p.closedEv[[2]int{ep, inst}] = true
 			p.mu.Unlock()
-			p.rec.Put(M{"e": "Ev", "type": "close", "ep": ep, "inst": inst, "cause": cause, "t": p.ms()})
 		case *gomavlib.EventFrame:
 			ep, inst := p.chanKey(e.Channel)
 			tag, id, ap := -1, int(e.Message().GetID()), -1
